@@ -630,7 +630,7 @@ pub fn run(prop: &str) {
             caps.push("wall budget exhausted before all configurations".to_string());
             break;
         }
-        let limits = Limits { max_budget: 0, max_depth: if cfg.deep && !thorough { 15 } else { depth }, max_states: 5_000_000, wall_s: remaining.min(per_cfg * 3.0) };
+        let limits = Limits { max_budget: 0, max_depth: if cfg.deep && !thorough { 15 } else { depth }, max_states: 5_000_000, wall_s: if cfg.deep { remaining.min(mc::budget(thorough, 25.0, 0.1)) } else { remaining.min(per_cfg * 3.0) } };
         let mut vio = vec![];
         let mut samples = vec![];
         let stats = mc::explore(&limits, |h: &[QEv]| run_query(cfg, h), |v, _| vio.push(v), |h, _| samples.push(format!("{:?}", h)));
